@@ -154,6 +154,65 @@ def run(tier, seed, rng):
         if 'ok' not in o or o.get('packed') != {'ok': c['raw']}:
             failures.append(dict(kind='oracle', sig='ref-position', what='after a referenced packet whose last field is placed before the end of another of its fields, the following fields are not serialized where they are parsed',
                                  classes=nsrc, cls=c['cls'], raw=c['raw'], offset=0, observed=o, required=dict(packed=c['raw'])))
+    # ---- a packet reached through a reference whose prototype is decided at RUN TIME (a callable, a selector expression), nested
+    # at every start offset 1..6: positions relative to the start of the DATA ('begins': aligned(), at(N, 'begins'), per-element and
+    # class-wide alignment) are the same on output as on input, and the same as through a static reference
+    def al(x, a):
+        return x + (-x) % a
+    def enc_inner(T, start):
+        cells = []
+        if T == 'RPt':
+            cells = [(start, b'\x00\x07'), (al(start + 2, 4), b'\x00\x09')]
+        elif T == 'RPin':
+            cells = [(start, b'\x05'), (9, b'\x06')]
+        elif T == 'RSeq':
+            pos = start + 1; cells = [(start, b'\x02')]
+            for e in (0x11, 0x12):
+                pos = al(pos, 4); cells.append((pos, bytes([e]))); pos += 1
+        return cells
+    rsrc = ("class RPt(Packet):\n    x = Int(2)\n    y = Int(2).aligned(4)\n"
+            "class RPin(Packet):\n    a = Int(1)\n    b = Int(1).at(9, 'begins')\n"
+            "class RSeq(Packet):\n    n = Int(1)\n    xs = Int(1).repeated(count=n, aligned=4)\n"
+            "class RCls(Packet):\n    __bisturi__ = {'align': 4}\n    a = Int(1)\n    b = Int(2)\n")
+    rvals = {'RPt': "RPt(x=7, y=9)", 'RPin': "RPin(a=5, b=6)", 'RSeq': "RSeq(n=2, xs=[17, 18])", 'RCls': "RCls(a=3, b=4)"}
+    for T in ('RPt', 'RPin', 'RSeq', 'RCls'):
+        rsrc += (f"class St{T}(Packet):\n    name = Data(until_marker=b'\\0')\n    p = Ref({T})\n    t = Int(1)\n"
+                 f"class Dy{T}(Packet):\n    name = Data(until_marker=b'\\0')\n    p = Ref(lambda pkt, **k: {T}(), default={T}())\n    t = Int(1)\n"
+                 f"class Ex{T}(Packet):\n    name = Data(until_marker=b'\\0')\n    p = Ref((name[0:1] == b'q').chooses([{T}(), {T}()]), default={T}())\n    t = Int(1)\n")
+    rcases, rmeta = [], []
+    for T in ('RPt', 'RPin', 'RSeq', 'RCls'):
+        for L in range(0, 6):
+            nm = b'qrstu'[:L]
+            start = L + 1
+            cells = enc_inner(T, start)
+            raw = None
+            if cells:
+                end = max(pos + len(b) for pos, b in cells)
+                buf = bytearray(b'.' * (end + 1)); buf[0:start] = nm + b'\x00'
+                for pos, b in cells:
+                    buf[pos:pos + len(b)] = b
+                buf[end] = 0x21
+                raw = bytes(buf)
+            for H in ('St', 'Dy', 'Ex'):
+                if raw is not None:
+                    rcases.append(dict(cls=H + T, op='roundtrip', raw=raw.hex(), offset=0)); rmeta.append((H, T, L, 'rt', raw))
+                rcases.append(dict(cls=H + T, op='pack', value={"py": f"{H}{T}(name={nm!r}, p={rvals[T]}, t=33)"})); rmeta.append((H, T, L, 'pack', raw))
+    rres = run_impl(os.path.join(VERIF, 'harness', 'impl_pkt.py'), dict(header=HEADER_PY, blocks=[dict(name='dynref', src=rsrc)], modname='c10r', cases=rcases))
+    dist['runtime_reference_begins_positions'] = len(rcases)
+    rstat = {}
+    for (H, T, L, kind, raw), o in zip(rmeta, rres['outcomes']):
+        txt = json.dumps(o, sort_keys=True).replace(H + T, 'H' + T)
+        if H == 'St':
+            rstat[(T, L, kind)] = txt
+            want = None if raw is None else ({'ok': raw.hex()} if kind == 'pack' else raw.hex())
+            bad = raw is not None and ((kind == 'pack' and o != want) or (kind == 'rt' and ('ok' not in o or o.get('packed') != {'ok': want})))
+            what = f"a packet nested at offset {L + 1} through a static reference: the layout {raw.hex() if raw else ''} is not what is parsed and serialized"
+        else:
+            bad = txt != rstat[(T, L, kind)]
+            what = (f"a packet nested at offset {L + 1} through a reference whose prototype is a {'callable' if H == 'Dy' else 'selector expression'}: positions relative to the start of the data "
+                    f"differ from the static reference, which gives {rstat[(T, L, kind)][:300]}")
+        if bad:
+            failures.append(dict(kind='oracle', sig='runtime-ref-begins', what=what, classes=rsrc, cls=H + T, **(dict(raw=raw.hex(), offset=0) if kind == 'rt' else dict(value=f"{H}{T}(name={b'qrstu'[:L]!r}, p={rvals[T]}, t=33)")), observed=o))
     # ---- an EMPTY field placed inside bytes written before it, then a field placed further on: on output the later field must land
     # where it was read (an empty chunk in the middle must not move the cursor the fill is measured from); every position of the
     # empty field, lengths 0..2, targets 8..11, directly and nested at offset 1 (start offset 0: see finding D10 for other offsets)
